@@ -501,3 +501,8 @@ Section UnitMass.
     unfold mass. cbn [sample map fst snd E]. unfold implicit_last. rewrite eval_fold_sub. cbn [eval]. ring.
   Qed.
 End UnitMass.
+
+Lemma cop_refl (x : Qc) : cop_holds Cge x x = true /\ cop_holds Cle x x = true.
+Proof.
+  unfold cop_holds, Qc_leb. assert (H : (x ?= x) = Eq) by (apply Qceq_alt; reflexivity). rewrite H. split; reflexivity.
+Qed.
